@@ -385,7 +385,9 @@ def check(run, prog, tier):
                 continue
             nfs += 1
             sets_flag = any(n2.get("k") == "Asg" and strip(n2["L"]).get("n") == "illegal_sentence_action" and const_val(n2["R"]) not in (None, 0) and (b2.id == b.id or f.dominates(b.id, b2.id)) for b2, i2, n2 in f.nodes())
-            owner_dies = f.name in ("destruct_object", "dealloc_object") and any(x.get("k") == "Mem" and x.get("f") == "sent" for b2, i2, n2 in f.nodes() if n2.get("k") == "Asg" and strip(n2["L"]).get("id") == a0.get("id") for x in walk(n2["R"]))
+            srcs = [n2["R"] for b2, i2, n2 in f.nodes() if n2.get("k") == "Asg" and strip(n2["L"]).get("id") == a0.get("id")]
+            srcs += [v["init"] for b2, i2, n2 in f.nodes() if n2.get("k") == "Decl" for v in n2.get("vars", ()) if v.get("id") == a0.get("id") and isinstance(v.get("init"), dict)]
+            owner_dies = f.name in ("destruct_object", "dealloc_object") and any(x.get("k") == "Mem" and x.get("f") == "sent" for r2 in srcs for x in walk(r2))
             run.ob("C08-f", "free-signals:%s:%s:%d" % (rel(f.file), f.name, j), sets_flag or owner_dies,
                    "free_sentence() at line %s %s" % (n.get("l"), "is followed by illegal_sentence_action = <non-zero>" if sets_flag else ("releases the list of the object being destructed (signalled by its O_DESTRUCTED flag)" if owner_dies else "neither sets illegal_sentence_action nor belongs to the destruction of the list's owner")),
                    f.file, n.get("l"), f.name, what="%s frees a sentence that may be part of a list user_parser is walking without signalling it" % f.name)
